@@ -36,10 +36,12 @@ def key_of(r, why):
                     "FlateDecode with a predictor rejects data within the decode limit: decoded length %d <= limit %d, but the encoded row "
                     "length %d (row size %d%s) is compared with the limit before decoding, e.g. [%s]" % (
                         r["D"], L, rl, rs, " + PNG filter byte" if rl > rs else "", ff.pipe_sig(r["pipe"])))
-    return ("%s|%s|%s|%s|D=%d|arg=%d" % ("+".join(why), r["api"], r["mode"], ff.pipe_sig(r["pipe"]), r["D"], L),
-            "%s: %s %s [%s] stage lengths %s, %s=%d -> %s len=%d got=%s full=%s err=%r" % (
+    hist = "" if not r["prev"] else "|after " + ",".join("%s(%d)" % ("bounded" if r["prev"][i] == 0 else "limit", r["prev"][i + 1])
+                                                         for i in range(0, len(r["prev"]), 2))
+    return ("%s|%s|%s|%s|D=%d|arg=%d%s" % ("+".join(why), r["api"], r["mode"], ff.pipe_sig(r["pipe"]), r["D"], L, hist),
+            "%s: %s %s [%s] stage lengths %s, %s=%d%s -> %s len=%d got=%s full=%s err=%r" % (
                 ",".join(why), r["api"], r["mode"], ff.pipe_sig(r["pipe"]), r["ds"], "limit" if r["mode"] == "limit" else "n", L,
-                r["kind"], r["len"], r["got"], r["full"], r["err"]))
+                hist.replace("|", " ") + (" on the same StreamDict" if hist else ""), r["kind"], r["len"], r["got"], r["full"], r["err"]))
 
 
 def run(ctx):
@@ -67,9 +69,10 @@ def run(ctx):
         ev.cov(evaluations=len(rows), distinct_nontrivial=summ["nontrivial"], traces_validated_against_impl=len(rows),
                rule="every state of FilterGen.tla (Prop=C16, Tier=%s) is one encoded case; one evaluation = one real decode of it under one limit "
                     "L in 0..D+2 (plus the neighbours of every stage length, and -1) or bounded to one n in 0..D+2, at the filter API (single-stage) "
-                    "and at StreamDict.DecodeLengthWithLimit, judged by TLC; distinct non-trivial = distinct (case, API, mode, argument) whose outcome "
+                    "and at StreamDict.DecodeLengthWithLimit, plus call histories on one StreamDict object (bounded(n) then Decode / DecodeWithLimit / DecodeLength, "
+                    "Decode then bounded; every later call judged like a call on a fresh object), judged by TLC; distinct non-trivial = distinct (case, API, mode, argument) whose outcome "
                     "is an error or a proper non-empty prefix" % ctx.tier,
-               exhaustive=True, cases=n, outcome_kinds=summ["kinds"], records_rejected_by_spec=len(bad),
+               exhaustive=True, cases=n, history_calls=sum(1 for r in rows if r["api"] == "SDH"), outcome_kinds=summ["kinds"], records_rejected_by_spec=len(bad),
                filter_interface_returns_more_than_n=notes, max_decoded_len=max(r["D"] for r in rows))
         pick = [r for r in rows if r["mode"] == "limit" and r["kind"] == "limit"][:1] + \
                [r for r in rows if r["mode"] == "bounded" and 0 < r["len"] < r["D"]][:1] + [r for r, _ in bad[:1]]
